@@ -9,13 +9,14 @@ GNext == Next /\ hist' = Append(hist, [ev |-> last', c |-> configured', v |-> va
 GSpec == GInit /\ [][GNext]_<<vars, hist>>
 \* small but discriminating layer alphabets for exhaustive history generation
 GenFile == {NoLayer,
-            [uw |-> "false", sox |-> Absent, nox |-> "p3t3"],
-            [uw |-> Absent, sox |-> "false", nox |-> "none"]}
+            [uw |-> "false", sox |-> Absent, nox |-> "p3t3", wd |-> Absent],
+            [uw |-> Absent, sox |-> "false", nox |-> "none", wd |-> "walt"]}
 GenKw == {NoLayer,
-          [uw |-> Absent, sox |-> "false", nox |-> Absent],
-          [uw |-> "true", sox |-> Absent, nox |-> "bffm2"]}
+          [uw |-> Absent, sox |-> "false", nox |-> Absent, wd |-> Absent],
+          [uw |-> "true", sox |-> Absent, nox |-> "bffm2", wd |-> "wdefault"],
+          [uw |-> Absent, sox |-> Absent, nox |-> Absent, wd |-> "null"]}
 GenFail == AllFailKinds
-SimFile == Layer
+SimFile == FileLayer
 SimKw == Layer
 \* random-walk step for -simulate: one successor per state, the operation kind
 \* drawn first so that behaviours are not dominated by the 1296 load variants
